@@ -271,6 +271,13 @@ func (in *inst) do(w *tr.Writer, c call) (ev tr.E) {
 		z.Reset()
 	case "Restore":
 		z.Restore()
+	case "Scribble":
+		// after Restore the memory is the caller's again: the caller overwrites its whole backing array (the byte that had been
+		// borrowed included) and that becomes the state any later modification is measured against
+		for i := range in.back {
+			in.back[i] ^= 0x5a
+			in.orig[i] = in.back[i]
+		}
 	case "Mem":
 		ev["diff"] = in.diff()
 	default:
@@ -407,6 +414,10 @@ var frags = [][]byte{
 	{0}, {'a'}, {'Z'}, {' '}, {0x7f}, {0xC3, 0xA9}, {0xE2, 0x80, 0xA8}, {0xF0, 0x9F, 0x98, 0x80}, {0xC3}, {0xE2}, {0xE2, 0x80},
 	{0xF0}, {0xF0, 0x9F}, {0xF0, 0x9F, 0x98}, {0x80}, {0xBF}, {0xFF}, {0xC0, 0x80}, {0xED, 0xA0, 0x80}, {0xF4, 0x90, 0x80, 0x80},
 	{0xE0, 0x80, 0x80}, {0xF0, 0x80, 0x80, 0x80}, {0xDF, 0xBF}, {0xEF, 0xBF, 0xBD}, {0xF4, 0x8F, 0xBF, 0xBF}, {0xC3, 0}, {0xE2, 0x80, 0},
+	// the first and last code point of every UTF-8 length class and of the ranges around the surrogates, with their invalid neighbours
+	{0xC2, 0x80}, {0xC2, 0xBF}, {0xE0, 0xA0, 0x80}, {0xE0, 0xBF, 0xBF}, {0xE1, 0x80, 0x80}, {0xED, 0x9F, 0xBF}, {0xEE, 0x80, 0x80}, {0xEF, 0xBF, 0xBF},
+	{0xF0, 0x90, 0x80, 0x80}, {0xF1, 0x80, 0x80, 0x80}, {0xF3, 0xBF, 0xBF, 0xBF}, {0xF4, 0x80, 0x80, 0x80},
+	{0xC1, 0xBF}, {0xE0, 0x9F, 0xBF}, {0xF0, 0x8F, 0xBF, 0xBF}, {0xF5, 0x80, 0x80, 0x80}, {0xE0, 0xA0}, {0xF0, 0x90, 0x80}, {0xF4, 0x8F, 0xBF},
 }
 
 func randData(rng *rand.Rand) []byte {
@@ -495,6 +506,11 @@ func Record(args []string) {
 		if rng.Intn(2) == 0 {
 			in.do(w, call{Op: "Restore"})
 			in.do(w, call{Op: "Mem"})
+			if in.back != nil && rng.Intn(2) == 0 {
+				in.do(w, call{Op: "Scribble"})
+				in.do(w, call{Op: "Restore"}) // a second Restore has nothing left to put back
+				in.do(w, call{Op: "Mem"})
+			}
 		}
 		if len(sum.Samples) < 2 {
 			sum.Samples = append(sum.Samples, map[string]interface{}{"kind": kind, "ctor": ctor, "data": tr.Ints(data), "steps": *steps})
